@@ -23,3 +23,14 @@ Theorem C12_normal_shape : forall op ar kw r,
     /\ (a = [] \/ exists l, a = [("args", JList l)] /\ l <> [])
     /\ (k = [] \/ exists d, k = [("kwargs", d)] /\ d <> JDict []).
 Proof. exact call_normal_shape. Qed.
+
+(* fmap = renaming the operation of every normal-form node, nothing else touched; swaps such as {add: sub, sub: add}
+   are covered because the rename map is applied exactly once per node *)
+Theorem C12_fmap_is_rename : forall fm r,
+  nofakeb_n fm r = true ->
+  match scrub_s MNormal fm r, scrub_s MNormal [] r with
+  | Some rf, Some r0 => fst rf = rename_ops fm (fst r0)
+  | None, None => True
+  | _, _ => False
+  end.
+Proof. exact fmap_is_rename. Qed.
